@@ -517,6 +517,8 @@ pub fn behav_exit0_all(spec: &WorldSpec, rng: &mut Rng, max_outs: usize) -> Vec<
             outs: gen_outs(rng, &format!("{}:{}", c.command, c.target), max_outs),
             code: 0,
             exit_pause_ms: 0,
+            early_exit: false,
+            hold_pipes_ms: 0,
         })
         .collect()
 }
